@@ -61,6 +61,9 @@ fn main() {
     let code = match args[1].as_str() {
         "check" => {
             let id = pos.first().cloned().unwrap_or_else(|| usage());
+            if let Some(p) = ["C01", "C02", "C03", "C04", "C05", "C06", "C07", "C08", "C09", "C10", "C11", "C12", "C13", "C14", "C15"].iter().find(|p| **p == id) {
+                exec::start_hang_monitor(p, format!("{tier:?}").to_lowercase(), std::time::Duration::from_secs(if tier == Tier::Quick { 20 } else { 60 }));
+            }
             match id.as_str() {
                 "C03" => c03::run("C03", tier, seed),
                 "C05" => c03::run("C05", tier, seed),
